@@ -39,6 +39,92 @@ pub fn replay(args: &Args) {
                 let k = w / 2;
                 let row = sc.rep(i);
                 let id = RowId::new(row as u16, sq.header.height()).unwrap();
+                if label == "mem" {
+                    // an in-memory Row { shares } handed to Row::verify directly: the committed row with the block
+                    // representatives replaced by the case's shares, truncated / extended as the case says
+                    let wfull = wabs;
+                    let b = sc.block;
+                    let parse = |r: usize, col: usize, bytes: &[u8]| {
+                        if r < k && col < k { celestia_types::Share::from_raw(bytes) } else { celestia_types::Share::parity(bytes) }
+                    };
+                    let mut shares: Vec<celestia_types::Share> = vec![];
+                    let mut okparts = true;
+                    let keep = h.len().min(wfull);
+                    // positions of the committed row that survive (a too short abstract row drops whole blocks)
+                    let dropped_front = mut0 == "short_first";
+                    for p in 0..w {
+                        let a = sc.block_of(p);
+                        let (lo_keep, hi_keep) = if dropped_front { (wfull - keep, wfull) } else { (0, keep) };
+                        if a < lo_keep || a >= hi_keep {
+                            // short1 / short_first drop exactly one share at scale 1; at larger scales drop one share too
+                            if (mut0 == "short1" && p == w - 1) || (mut0 == "short_first" && p == 0) {
+                                continue;
+                            }
+                            if mut0 == "short1" || mut0 == "short_first" {
+                                // keep the rest of the block
+                            } else {
+                                continue;
+                            }
+                        }
+                        let idx = if dropped_front { (a + keep).saturating_sub(wfull) } else { a };
+                        let e = if sc.rep(a) == p && a >= lo_keep && a < hi_keep { h.get(idx) } else { None };
+                        let (sr, scol, alt) = match e {
+                            Some(e) => (sc.rep(us(&e[1])), sc.rep(us(&e[2])), e[0] == "alt"),
+                            None => (row, p, false),
+                        };
+                        let mut bytes = sq.share_bytes(sr, scol);
+                        if alt {
+                            bytes = flip_last(bytes);
+                        }
+                        match parse(sr, scol, &bytes) {
+                            Ok(sh) => shares.push(sh),
+                            Err(_) => okparts = false,
+                        }
+                    }
+                    // surplus shares: a single one for "extra1", whole blocks otherwise
+                    for e in h.iter().skip(wfull) {
+                        let (ar, ac) = (us(&e[1]), us(&e[2]));
+                        let cols: Vec<usize> = if mut0 == "extra1" { vec![sc.rep(ac)] } else { (ac * b..(ac + 1) * b).collect() };
+                        for col in cols {
+                            let sr = sc.rep(ar);
+                            match parse(sr, col, &sq.share_bytes(sr, col)) {
+                                Ok(sh) => shares.push(sh),
+                                Err(_) => okparts = false,
+                            }
+                        }
+                    }
+                    if !okparts {
+                        tool_error("could not parse a committed share");
+                    }
+                    let committed: Vec<Vec<u8>> = (0..w).map(|col| sq.share_bytes(row, col)).collect();
+                    let given: Vec<Vec<u8>> = shares.iter().map(|s| s.to_vec()).collect();
+                    let nshares = shares.len();
+                    let r = Row { shares };
+                    let dah = &sq.dah;
+                    let got = match catch(|| r.verify(id, dah)) {
+                        Ok(Ok(())) => "accept".to_string(),
+                        Ok(Err(_)) => "reject".to_string(),
+                        Err(p) => format!("panic: {p}"),
+                    };
+                    let same = got != "accept" || given == committed;
+                    // the demand is decided by the model; width 2 holds equal shares, there bytes decide
+                    let demand = if demand0 == "reject" && given == committed { "either" } else { demand0 };
+                    *by_width.entry(w).or_default() += 1;
+                    sum.case("C05", Some(format!("{ci}/{w}/{}/mem", sc.name)), || json!({"case": c, "width": w, "scale": sc.name, "path": "mem", "shares": nshares, "got": got}));
+                    if got.starts_with("panic") || !same || (demand != "either" && got != demand) {
+                        let gotk = if got.starts_with("panic") { panic_kind(&got) } else if !same { "accept-other-row".to_string() } else { got.clone() };
+                        let class = json!({"kind": "row", "path": "mem", "cls": cls, "mut": mut0, "demand": demand, "got": gotk,
+                                           "length": if nshares > w { "surplus" } else if nshares < w { "short" } else { "exact" },
+                                           "half": if i < kabs { "data" } else { "parity" }});
+                        let ck = class.to_string();
+                        *classes.entry(ck.clone()).or_default() += 1;
+                        viols.push((ck, json!({"why": format!("[mem] width {w} ({}) Row {{ {nshares} shares }}.verify(id of row {row}) {cls}/{}: demanded {demand}, code says {got}", sc.name, c["mut"]),
+                                               "class": class, "case": c, "width": w, "scale": sc.name, "got": got})));
+                    } else if w == wabs && sq.distinct && got != predict {
+                        sum.drift("C05", json!({"case": c, "width": w, "got": got, "predict": predict}));
+                    }
+                    continue;
+                }
                 let base = if side == "left" { 0 } else { k };
                 let bytes: Vec<u8> = if cls == "honest" && side == "left" {
                     // the public constructor and encoder (which sends the left half)
